@@ -251,6 +251,10 @@ func checkC08(c *Ctx) {
 	// role bytes
 	for _, r := range []struct{ typ, un, role string }{{"sealContext", "UnmarshalSealer", "0"}, {"openContext", "UnmarshalOpener", "1"}} {
 		c.returnRule(p, "C08.codec", "role byte "+r.role+" prefixed", p.Func("hpke", r.typ, "MarshalBinary"), 0, `concat\("\\x0`+r.role+`" ‖ call:\(\*hpke\.encdecContext\)\.marshal#0\)`)
+		// a marshalled context restores whatever its sequence number is: the only reasons to refuse are the
+		// role byte and a malformed body (a further test refuses a live context its original would go on using)
+		c.rejectReasonsRule(p, "C08.codec", reasonSpec{pkg: "hpke", name: r.un, why: "role byte, well-formed body",
+			callees: []string{"hpke.unmarshalContext"}, conds: []string{`param#0\[0\] != ` + r.role}})
 		f := p.Func("hpke", "", r.un)
 		// role mismatch rejected: raw[0] compared with the role constant
 		c.guard(p, "C08.codec", "wrong role byte rejected", f, GuardSpec{BinAssumes: []BinAssume{{Name: "raw[0] != role", Val: latTrue, Match: func(b *ssa.BinOp, in *ssa.Function) bool {
